@@ -27,6 +27,7 @@ import (
 	"fmt"
 	"math/rand"
 	"net"
+	"os"
 	"path/filepath"
 	"sort"
 	"strings"
@@ -354,7 +355,13 @@ func TestMatcherReplay(t *testing.T) {
 	if in.ServeEvery <= 0 {
 		in.ServeEvery = 1
 	}
-	dir := filepath.Join(vh.Scratch(t), fmt.Sprintf("c18-matcher-%d", time.Now().UnixNano()))
+	// every successful Set/Remove persists (temp file + fsync + rename); the
+	// matcher replay makes ~10^5 of them and does not care where they land
+	dir, err := os.MkdirTemp("/dev/shm", "verif-c18-matcher-")
+	if err != nil {
+		dir = filepath.Join(vh.Scratch(t), fmt.Sprintf("c18-matcher-%d", time.Now().UnixNano()))
+	}
+	defer os.RemoveAll(dir)
 	x := &matcher{t: t, res: res, in: &in, rng: vh.Rand()}
 	x.bl = newBlockList(dir, nil)
 	// the background refresh of New() re-reads the (empty) directory once
